@@ -709,4 +709,205 @@ theorem abortFlow_aborts (fuel : Nat) (f : FUid) (sc : List Score) (s s' : VM) (
   refine (Post.app (Q := fun s' => (findInst s'.ixs.ix f).isSome → Aborted f sc s') ?_ _ _ _ hB) hex
   post_search (fun s' => (findInst s'.ixs.ix f).isSome → Aborted f sc s') (exact abortEnd_post f sc false)
 
+/-! ### Layer C2: the `except` branch of `_advance_head_front` -/
+
+theorem bind_ok_eq {α β : Type} {x : M α} {f : α → M β} {s s1 : VM} {a : α} (h : x s = .ok a s1) :
+    (x >>= f) s = f a s1 := by
+  show EStateM.bind x f s = _
+  unfold EStateM.bind; rw [h]
+
+theorem bind_err_eq {α β : Type} {x : M α} {f : α → M β} {s s1 : VM} {e : VMErr} (h : x s = .error e s1) :
+    (x >>= f) s = .error e s1 := by
+  show EStateM.bind x f s = _
+  unfold EStateM.bind; rw [h]
+
+/-- the `except Exception as e:` branch of `_advance_head_front` followed by the rest of the loop body for that head -/
+def errHandler (fuel : Nat) (k : Key) (c m : String) (wasStarting : Bool) : M (List Key) := do
+  pushEvent (colangErrorEvent c m)
+  modifyRest fun r => { r with caught := r.caught ++ [s!"{c}: {m}"] }
+  if wasStarting && (← getInstX k.1).activated > 0 then
+    modInstX k.1 fun x => { x with newInstanceStarted := true }
+  abortFlow fuel k.1 (← headScores k) false
+  let _ ← getIx
+  return []
+
+theorem advance_error_path (fuel : Nat) (k : Key) (s s1 s2 : VM) (i : Inst) (hd hd2 : Head) (cfg : FlowCfg) (c m : String)
+    (starting : Bool)
+    (hi : findInst s.ixs.ix k.1 = some i) (hl : i.status.listening = true)
+    (hcfg : cfgOfInst k.1 s = .ok cfg s)
+    (hhd : i.findHead k.2 = some hd) (hact : hd.status = .active)
+    (hpre : (do
+        setHeadPos k (hd.pos + 1)
+        if (← getInst k.1).status = FlowStatus.waiting then setFlowStatus k.1 FlowStatus.starting
+        pure (decide ((← getInst k.1).status = FlowStatus.starting))) s = .ok starting s1)
+    (hraise : (do
+        let newHeads ← slide fuel k.1 k.2
+        if newHeads.isEmpty then pure [] else advanceHeadFront fuel newHeads) s1 = .error (.py c m) s2)
+    (hhd2 : (findInst s2.ixs.ix k.1).bind (·.findHead k.2) = some hd2) (hpos : hd2.pos < cfg.elements.size) :
+    advanceHeadFront (fuel + 1) [k] s = errHandler fuel k c m starting s2 := by
+  unfold advanceHeadFront
+  simp only [List.forIn_cons, List.forIn_nil]
+  have g1 : getInst? k.1 s = .ok (some i) s := by
+    simp [getInst?, getIx, bind, EStateM.bind, get, getThe, MonadStateOf.get, EStateM.get, pure, EStateM.pure, hi]
+  have g3 : getHead? k s = .ok (some hd) s := by
+    simp [getHead?, getIx, bind, EStateM.bind, get, getThe, MonadStateOf.get, EStateM.get, pure, EStateM.pure, hi, hhd]
+  simp only [bind_assoc]
+  rw [bind_ok_eq g1]
+  simp only [bind_assoc, pure_bind]
+  rw [bind_ok_eq hcfg, bind_ok_eq g3]
+  simp only [bind_assoc, pure_bind, hact, hl]
+  simp only [reduceCtorEq, decide_false, Bool.false_or, Bool.not_true, Bool.false_eq_true, if_false, Bool.false_and, if_true,
+    bind_assoc, pure_bind]
+  have g4 : getRest s = .ok s.r s := rfl
+  rw [bind_ok_eq g4]
+  try simp only [reduceCtorEq, decide_false, Bool.false_or, Bool.not_true, Bool.false_eq_true, if_false, Bool.false_and, if_true,
+    bind_assoc, pure_bind]
+  obtain ⟨_, sa, hsp, hpre⟩ := bind_ok hpre
+  obtain ⟨i1, sa', hg1, hpre⟩ := bind_ok hpre
+  rw [bind_ok_eq hsp, bind_ok_eq hg1]
+  have g5 : getHead? k s2 = .ok (some hd2) s2 := by
+    simp [getHead?, getIx, bind, EStateM.bind, get, getThe, MonadStateOf.get, EStateM.get, pure, EStateM.pure, hhd2]
+  have hnp : ¬ (hd2.pos ≥ cfg.elements.size) := by omega
+  by_cases hw : i1.status = FlowStatus.waiting
+  · simp only [hw, if_true, bind_assoc, pure_bind] at hpre ⊢
+    obtain ⟨_, sb, hsf, hpre⟩ := bind_ok hpre
+    obtain ⟨i2, sb', hg2, hpre⟩ := bind_ok hpre
+    simp only [pure, EStateM.pure] at hpre
+    cases hpre
+    rw [bind_ok_eq hsf, bind_ok_eq hg2, bind_ok_eq (attemptPy_of_py hraise)]
+    simp only [bind_assoc, pure_bind]
+    rw [bind_ok_eq g5]
+    simp only [hnp, if_false, bind_assoc, pure_bind]
+    unfold errHandler
+    simp only [bind_assoc, pure_bind, List.filter_nil]
+    refine congrFun (bind_congr fun _ => bind_congr fun _ => bind_congr fun x => ?_) s2
+    split <;> simp only [bind_assoc, pure_bind, List.filter_nil]
+  · simp only [hw, if_false, bind_assoc, pure_bind] at hpre ⊢
+    obtain ⟨i2, sb', hg2, hpre⟩ := bind_ok hpre
+    simp only [pure, EStateM.pure] at hpre
+    cases hpre
+    rw [bind_ok_eq hg2, bind_ok_eq (attemptPy_of_py hraise)]
+    simp only [bind_assoc, pure_bind]
+    rw [bind_ok_eq g5]
+    simp only [hnp, if_false, bind_assoc, pure_bind]
+    unfold errHandler
+    simp only [bind_assoc, pure_bind, List.filter_nil]
+    refine congrFun (bind_congr fun _ => bind_congr fun _ => bind_congr fun x => ?_) s2
+    split <;> simp only [bind_assoc, pure_bind, List.filter_nil]
+
+theorem Ext.uid (s : VM) (n : Nat) : Ext s { s with r := { s.r with nextUid := n } } :=
+  ⟨⟨[], [], by simp⟩, fun _ h => h, fun _ h => h, rfl⟩
+
+theorem Ext.headScores (k : Key) : Pres Ext (headScores k) := Pres.of_same Ext.uid (Same.headScores k)
+
+theorem Ext.modifyRest_caught (g : List String → List String) :
+    Pres Ext (CoreVM.modifyRest fun r => { r with caught := g r.caught }) := by
+  apply Ext.modifyRest
+  · intro r; exact ⟨[], [], by simp⟩
+  · intro r k h; exact h
+  · intro r; rfl
+
+macro_rules | `(tactic| ext_leaf) => `(tactic| first | exact Ext.abortFlow _ _ _ _ | exact Ext.headScores _ | exact Ext.modifyRest_caught (fun l => l ++ [_]))
+
+theorem Ext.errHandler (fuel : Nat) (k : Key) (c m : String) (b : Bool) : Pres Ext (errHandler fuel k c m b) := by
+  unfold CoreVM.errHandler
+  ext_auto
+
+/-- what the `except` branch does, whatever its result: the `ColangError` event is queued (and stays queued), the exception
+    is logged, no instance disappears -/
+theorem errHandler_queues (fuel : Nat) (k : Key) (c m : String) (b : Bool) (s2 : VM) :
+    colangErrorEvent c m ∈ (outState (errHandler fuel k c m b s2)).r.queue := by
+  unfold CoreVM.errHandler
+  have hp : (pushEvent (colangErrorEvent c m)) s2 = .ok () { s2 with r := { s2.r with queue := s2.r.queue ++ [colangErrorEvent c m] } } := rfl
+  rw [bind_ok_eq hp]
+  generalize hs3 : ({ s2 with r := { s2.r with queue := s2.r.queue ++ [colangErrorEvent c m] } } : VM) = s3
+  have hin : colangErrorEvent c m ∈ s3.r.queue := by rw [← hs3]; simp
+  have hrest : Pres Ext (do
+      modifyRest fun r => { r with caught := r.caught ++ [s!"{c}: {m}"] }
+      if b && (← getInstX k.1).activated > 0 then
+        modInstX k.1 fun x => { x with newInstanceStarted := true }
+      abortFlow fuel k.1 (← headScores k) false
+      let _ ← getIx
+      return ([] : List Key)) := by
+    ext_auto
+  obtain ⟨pre, post, hq⟩ := (hrest.app s3).queue
+  rw [hq]; simp [hin]
+
+
+theorem bind_err {α β : Type} {x : M α} {f : α → M β} {s s' : VM} {e : VMErr}
+    (h : (x >>= f) s = .error e s') : x s = .error e s' ∨ ∃ a s1, x s = .ok a s1 ∧ f a s1 = .error e s' := by
+  change EStateM.bind x f s = _ at h
+  unfold EStateM.bind at h
+  split at h
+  · rename_i a s1 hx; exact Or.inr ⟨a, s1, hx, h⟩
+  · rename_i e1 s1 hx; cases h; exact Or.inl hx
+
+theorem IxSame.headScores (k : Key) : Pres IxSame (headScores k) := IxSame.of_same (Same.headScores k)
+theorem IxSame.getInstX (f : FUid) : Pres IxSame (getInstX f) := IxSame.of_same (Same.getInstX f)
+
+/-- the prefix of the `except` branch (everything before `_abort_flow`) -/
+def errPrefix (k : Key) (c m : String) (wasStarting : Bool) : M (List Score) := do
+  pushEvent (colangErrorEvent c m)
+  modifyRest fun r => { r with caught := r.caught ++ [s!"{c}: {m}"] }
+  if wasStarting && (← getInstX k.1).activated > 0 then
+    modInstX k.1 fun x => { x with newInstanceStarted := true }
+  headScores k
+
+theorem errHandler_eq (fuel : Nat) (k : Key) (c m : String) (b : Bool) :
+    errHandler fuel k c m b = (do
+      let sc ← errPrefix k c m b
+      abortFlow fuel k.1 sc false
+      let _ ← getIx
+      return []) := by
+  unfold errHandler errPrefix
+  simp only [bind_assoc, pure_bind]
+  refine bind_congr fun _ => bind_congr fun _ => bind_congr fun x => ?_
+  split <;> simp only [bind_assoc, pure_bind]
+
+theorem IxSame.errPrefix (k : Key) (c m : String) (b : Bool) : Pres IxSame (errPrefix k c m b) := by
+  unfold CoreVM.errPrefix
+  pres_search IxSame ixSamePO (first | ixsame_leaf | exact IxSame.headScores _ | exact IxSame.getInstX _)
+
+theorem Ext.errPrefix (k : Key) (c m : String) (b : Bool) : Pres Ext (errPrefix k c m b) := by
+  unfold CoreVM.errPrefix
+  ext_auto
+
+/-- the `except` branch returns normally: nothing is handed back for this head, and the faulty flow has been aborted -/
+theorem errHandler_ok (fuel : Nat) (k : Key) (c m : String) (b : Bool) (s2 s' : VM) (r : List Key)
+    (h : errHandler (fuel + 1) k c m b s2 = .ok r s') :
+    r = [] ∧ Ext s2 s' ∧
+    ∀ i2, findInst s2.ixs.ix k.1 = some i2 → (i2.status.listening = true ∨ i2.status = .stopping) →
+      ∃ sc, Aborted k.1 sc s' := by
+  rw [errHandler_eq] at h
+  obtain ⟨sc, s3, h1, h⟩ := bind_ok h
+  obtain ⟨_, s4, h2, h⟩ := bind_ok h
+  obtain ⟨_, s5, h3, h⟩ := bind_ok h
+  have e5 : s5 = s4 := by
+    simp only [getIx, bind, EStateM.bind, get, getThe, MonadStateOf.get, EStateM.get, pure, EStateM.pure] at h3
+    cases h3; rfl
+  simp only [pure, EStateM.pure] at h
+  cases h
+  subst e5
+  refine ⟨rfl, extPO.trans (ok_of_pres (Ext.errPrefix k c m b) h1) (ok_of_pres (Ext.abortFlow _ _ _ _) h2), ?_⟩
+  intro i2 hi2 hl
+  have e3 : s3.ixs = s2.ixs := ok_of_pres (IxSame.errPrefix k c m b) h1
+  exact ⟨sc, abortFlow_aborts fuel k.1 sc s3 _ i2 (by rw [e3]; exact hi2) hl h2⟩
+
+/-- **provenance of anything that leaves the `except` branch**: it was raised by `_abort_flow` itself (its own clean-up of
+    children / actions / the parent link), or by the handler's look-up of the faulty flow's own record -/
+theorem errHandler_error (fuel : Nat) (k : Key) (c m : String) (b : Bool) (s2 s' : VM) (e : VMErr)
+    (h : errHandler fuel k c m b s2 = .error e s') :
+    (∃ s3 sc, Ext s2 s3 ∧ s3.ixs = s2.ixs ∧ abortFlow fuel k.1 sc false s3 = .error e s') ∨
+    errPrefix k c m b s2 = .error e s' := by
+  rw [errHandler_eq] at h
+  rcases bind_err h with h | ⟨sc, s3, h1, h⟩
+  · exact Or.inr h
+  · left
+    rcases bind_err h with h | ⟨_, s4, h2, h⟩
+    · exact ⟨s3, sc, ok_of_pres (Ext.errPrefix k c m b) h1, ok_of_pres (IxSame.errPrefix k c m b) h1, h⟩
+    · exfalso
+      rcases bind_err h with h | ⟨_, s5, h3, h⟩
+      · simp [getIx, bind, EStateM.bind, get, getThe, MonadStateOf.get, EStateM.get, pure, EStateM.pure] at h
+      · simp [pure, EStateM.pure] at h
+
 end NemoVerif.CoreVM
